@@ -131,6 +131,7 @@ PROPS = {
             T("TestC07RoundTrip", "codec", 1500, 160000, shards=16),
             T("TestC07ForwardCompat", "codec", 4000, 480000, shards=16),
             T("TestC07BufferGrowth", "codec", 1, 1, enum=True),
+            T("TestC07Interleaved", "codec", 800, 96000, shards=16),
         ],
         "known_tests": [T("TestKnownC07", "codec", 1, 1)],
         "fuzz": [{"pkg": "codec", "name": "FuzzUnmarshal", "time": "120s", "timeout": 600}],
@@ -147,6 +148,9 @@ PROPS = {
             T("TestC08Corpus", "codec", 1, 1, enum=True),
             T("TestC08Proportional", "codec", 1, 1, enum=True),
             T("TestC16Receiver", "recv", 120, 8000, shards=16, qshards=4, procs=4),
+            # the same buckets with undecodable blobs under the race detector: a data race between the downloaders'
+            # corrupt-blob bookkeeping and the listing pass ends the process ("concurrent map read and map write")
+            T("TestC16Receiver", "recv", 120, 8000, shards=16, qshards=4, race=True, gomaxprocs=[4, 2, 8, 16]),
         ],
         "fuzz": [{"pkg": "codec", "name": "FuzzUnmarshal", "time": "120s", "timeout": 600},
                  {"pkg": "codec", "name": "FuzzLoadData", "time": "120s", "timeout": 600}],
